@@ -130,6 +130,12 @@ private:
             return (first.size() * double(second.grainsize()) < second.size() * double(first.grainsize()));
         });
 
+        // The ratios are compared in floating point and can tie for sizes above 2^53:
+        // never pick a dimension that is not divisible while another one is.
+        if (!my_it->is_divisible()) {
+            my_it = std::find_if(my_dims.begin(), my_dims.end(), [](const dim_range_type& d) { return d.is_divisible(); });
+        }
+
         auto r_it = r.my_dims.begin() + (my_it - my_dims.begin());
 
         my_it->my_begin = dim_range_type::do_split(*r_it, proportion);
